@@ -8,10 +8,11 @@ rsync -a --exclude .git /repo/ "$wt"/
 cp /verif/selftest/engine/zz_t.go.txt "$wt"/vec/zz_t.go
 cat /verif/selftest/engine/zz_contracts.txt >> "$wt"/vec/zz_contracts_verif.go
 funcs=$(grep -o '^//@ func [A-Za-z0-9_]*' /verif/selftest/engine/zz_contracts.txt | awk '{print "vec."$3}')
-out=$(/verif/bin/gowp func -repo "$wt" $funcs 2>&1)
+out=$(${GOWP:-/verif/bin/gowp} func -repo "$wt" $funcs 2>&1)
 rc=0
 echo "$out" | grep "post:bad" | grep -v "^FAIL" && { echo "UNSOUND: a false clause was proved"; rc=1; }
 echo "$out" | grep "post:good" | grep -v "^ok" && { echo "INCOMPLETE: a true clause was not proved"; rc=1; }
+echo "$out" | grep "zzS#safe:rangekeys" | grep -v "^FAIL" && { echo "UNSOUND: insertion during a range over the map was not flagged"; rc=1; }
 echo "$out" | grep -q "ENGINE-ERROR" && { echo "$out" | grep ENGINE-ERROR; rc=1; }
 n=$(echo "$out" | grep -c "post:bad")
 echo "engine canaries: $n false clauses refuted, rc=$rc"
